@@ -82,6 +82,7 @@ pub fn make_conc_case(real_prop: &str, seed: u64, tier: Tier) -> Case {
             }
             _ => {
                 c.block_kinds = vec![(Kind::Fix, 3), (Kind::FixJ, 2)];
+                c.ret_if_top = r.pct(40);
                 class = "cyclic_fixpoint".to_string();
             }
         }
@@ -477,6 +478,7 @@ pub fn make_case_e1(prop: &str, seed: u64, tier: Tier) -> Case {
     let cyc = match prop {
         "C12" => {
             let mut c = CycCfg::base();
+            c.ret_if_top = r.pct(50);
             if tier == Tier::Thorough {
                 c.block.1 = 8;
             }
